@@ -125,6 +125,9 @@ def run_shard(mod, spec, ctx):
     elif part == 'grids':
         r = random.Random(ctx.seed * 1000003 + 101 + spec['sub'])
         gen = D.Gen(r)
+        for k, v in getattr(mod, 'GEN_OPTIONS', {}).items():
+            setattr(gen, k, v)
+        remembered = []          # (grid, text of its first dump): dumping must not depend on what was dumped before
         for gi in range(spec['n']):
             ver = r.choice(['2.0', '3.0', '3.0', None])
             n = gen.grid(ver)
@@ -137,10 +140,27 @@ def run_shard(mod, spec, ctx):
                     ctx.cls('grid', D.kind(x), pos, 'v' + str(ver))
             sym, detail, art = mod.judge_grid(n)
             ctx.count('grid round trips')
+            if sym in getattr(mod, 'NOT_JUDGED', ()) and any(x[0] == 'dt' and x[3] is None for _, x in D.walk(n, 'top')):
+                ctx.count('zone-less date-time refused by the writer with ValueError (allowed, C17)')
+                continue
             if sym:
                 report(ctx, mod, 'grid', n, sym, detail, mod.judge_grid)
             elif gi == 0:
                 ctx.sample({'grid': D.enc(n), 'text': art.get('text')})
+            if not sym and len(remembered) < 150 and art.get('text') is not None:
+                remembered.append((n, art['text']))
+        # history independence: the same grids dumped again, in reverse order and after everything else this process
+        # has dumped, must give exactly the same text (a cache keyed on too little shows up here)
+        for n, text in reversed(remembered):
+            sym, detail, art = mod.judge_grid(n)
+            ctx.count('re-dumps compared with the first dump')
+            if sym or art.get('text') != text:
+                ctx.violation({'part': 'history', 'format': mod.FMT, 'position': 'document', 'kind': 'grid',
+                               'symptom': 'dump-depends-on-history', 'features': []},
+                              'the same grid dumped later in the same process gives %s (first dump %r, later %r)' % (
+                                  sym or 'another text', text[:200], (art.get('text') or '')[:200]),
+                              {'type': 'grid', 'n': D.enc(n)})
+                break
     elif part == 'multi':
         if not hasattr(mod, 'judge_multi'):
             return
